@@ -44,21 +44,24 @@
 /* first instant NOT representable: 2051-01-01 (UTCTime), 10000-01-01 (GeneralizedTime) */
 #define T_LIMIT(utc) (((utc) & 1) ? T_DAYS_BEFORE_YEAR(2051) * (int64_t)86400 : T_DAYS_BEFORE_YEAR(10000) * (int64_t)86400)
 
+/* the two postconditions as predicates, used verbatim by the contracts below AND as assumptions by the round-trip lemma
+   (jobs/c14_time.c), so that the lemma is about exactly what the enforce jobs prove */
+#define T_FROM_STR_POST(ret, utc, ts, str) (((ret) == 1 || (ret) == -1) && (((ret) == 1) == T_WELLFORMED(utc, str)) \
+	&& ((ret) != 1 || (int64_t)(ts) == T_DAYNUM(utc, str) * (int64_t)86400 + T_SECS(utc, str)))
+#define T_TO_STR_POST(ret, utc, t, str) (((ret) == 1 || (ret) == -1) && (((ret) == 1) == ((int64_t)(t) >= 0 && (int64_t)(t) < T_LIMIT(utc))) \
+	&& ((ret) != 1 || (T_WELLFORMED(utc, str) && T_DAYNUM(utc, str) == (int64_t)(t) / 86400 && T_SECS(utc, str) == (int64_t)(t) % 86400)))
+
 /* decoder: accepts exactly the well-formed texts and returns their calendar value */
 int asn1_time_from_str(int utc_time, time_t *timestamp, const char *str)
 REQUIRES(RD_OK(str, T_LEN(utc_time)) && WR_OK(timestamp, sizeof(time_t)))
 ASSIGNS(*timestamp)
-ENSURES(RET == 1 || RET == -1)
-ENSURES((RET == 1) == T_WELLFORMED(utc_time, str))
-ENSURES(RET == 1 IMPLIES (int64_t)*timestamp == T_DAYNUM(utc_time, str) * (int64_t)86400 + T_SECS(utc_time, str))
+ENSURES(T_FROM_STR_POST(RET, utc_time, *timestamp, str))
 ;
 
 /* encoder: succeeds exactly on the representable range and writes the well-formed text of that instant */
 int asn1_time_to_str(int utc_time, time_t timestamp, char *str)
 REQUIRES(WR_OK(str, T_LEN(utc_time)))
 ASSIGNS(OBJ_UPTO((uint8_t *)str, (size_t)15 - 2 * ((size_t)utc_time & 1)))
-ENSURES(RET == 1 || RET == -1)
-ENSURES((RET == 1) == ((int64_t)timestamp >= 0 && (int64_t)timestamp < T_LIMIT(utc_time)))
-ENSURES(RET == 1 IMPLIES (T_WELLFORMED(utc_time, str) && T_DAYNUM(utc_time, str) == (int64_t)timestamp / 86400 && T_SECS(utc_time, str) == (int64_t)timestamp % 86400))
+ENSURES(T_TO_STR_POST(RET, utc_time, timestamp, str))
 ;
 #endif
